@@ -359,6 +359,66 @@ def add_valve_cut(spec, rng):
     return z
 
 
+def add_valve_station(spec, rng):
+    """Replace one open pipe whose far side has no tank or reservoir by a control-valve station: an Active TCV / PRV / FCV with a
+    normally closed by-pass pipe parallel to it (sometimes opened for a while by time controls).  -> {'valve', 'bypass', 'nodes'} or None"""
+    o = spec['options']
+    hyd, dur = o['hydraulic_timestep'], o['duration']
+    links = spec['pipes'] + spec['pumps'] + spec['valves']
+    sources = set(x['name'] for x in spec['reservoirs'] + spec['tanks'])
+    juncs = set(j['name'] for j in spec['junctions'])
+    used = set(cs.get('target') for cs in spec['controls']) | \
+        set(a['target'] for cs in spec['controls'] if cs['kind'] == 'rule' for a in cs['then'] + cs.get('else', []))
+    cands = []
+    for p in spec['pipes']:
+        if p.get('cv') or p.get('status') == 'CLOSED' or p['name'] in used or not (p['start'] in juncs and p['end'] in juncs):
+            continue
+        if any(l is not p and set((l['start'], l['end'])) == set((p['start'], p['end'])) for l in links):
+            continue
+        adj = {}
+        for l in links:
+            if l is p:
+                continue
+            adj.setdefault(l['start'], set()).add(l['end'])
+            adj.setdefault(l['end'], set()).add(l['start'])
+        for side, other in ((p['end'], p['start']), (p['start'], p['end'])):
+            seen, stack = {side}, [side]
+            while stack:
+                x = stack.pop()
+                for y in adj.get(x, ()):
+                    if y not in seen:
+                        seen.add(y)
+                        stack.append(y)
+            if seen & sources or other in seen:
+                continue
+            cands.append((p, side, other, sorted(seen)))
+    if not cands:
+        return None
+    p, side, other, nodes = rng.choice(cands)
+    vt = rng.choice(['TCV', 'TCV', 'PRV', 'FCV'])
+    name = 'V%d' % (len(spec['valves']) + 1)
+    while any(v['name'] == name for v in spec['valves']):
+        name += 'x'
+    demand_in = sum(d['base'] for j in spec['junctions'] if j['name'] in nodes for d in j['demands'])
+    setting = {'TCV': rng.choice([2.0, 20.0, 100.0]), 'PRV': rng.choice([15.0, 25.0, 40.0]), 'FCV': _round(max(1e-4, demand_in * rng.choice([0.5, 0.8])), 6)}[vt]
+    spec['pipes'].remove(p)
+    spec['valves'].append({'name': name, 'start': other, 'end': side, 'diameter': p['diameter'], 'type': vt, 'minor_loss': 0.0,
+                           'setting': setting, 'status': 'ACTIVE'})
+    bypass = dict(p, name='PBY%d' % (len(spec['pipes']) + 1), start=other, end=side, status='CLOSED', cv=False)
+    bypass.pop('tree', None)
+    spec['pipes'].append(bypass)
+    if rng.random() < 0.5:
+        nsteps = max(1, int(dur // hyd))
+        t1 = hyd * rng.randint(1, max(1, nsteps - 1))
+        t2 = t1 + hyd * rng.randint(1, 2)
+        spec['controls'].append({'kind': 'time', 'name': 'bypass_open_%s' % name, 'time': t1, 'target': bypass['name'], 'attr': 'status', 'value': 'OPEN'})
+        if t2 <= dur:
+            spec['controls'].append({'kind': 'time', 'name': 'bypass_close_%s' % name, 'time': t2, 'target': bypass['name'], 'attr': 'status', 'value': 'CLOSED'})
+    z = {'valve': name, 'type': vt, 'bypass': bypass['name'], 'nodes': nodes}
+    spec['valve_station'] = z
+    return z
+
+
 def add_zone_isolation(spec, rng, prefer_pump=0.8, make_pump=0.5):
     """Time controls that close one open pipe whose far side (junctions only, at least one link inside: a booster pump, a valve,
     pipes) then has no path to any tank or reservoir, and re-open it later.  -> {'pipe', 'close', 'open', 'nodes', 'links'} or None"""
